@@ -51,6 +51,17 @@ def SortPerm (env : Env) (T : Tables) : Prop :=
 /-- `l` holds no name more often than `l'` does (so nothing that is not in `l'`) -/
 def SubMultiset (l l' : List Name) : Prop := ∀ x, l.count x ≤ l'.count x
 
+/-- it is enough to look at the names of `l` -/
+instance (l l' : List Name) : Decidable (SubMultiset l l') :=
+  decidable_of_iff (∀ x ∈ l, l.count x ≤ l'.count x) (by
+    unfold SubMultiset
+    constructor
+    · intro h x
+      by_cases hx : x ∈ l
+      · exact h x hx
+      · rw [List.count_eq_zero.mpr hx]; exact Nat.zero_le _
+    · intro h x _; exact h x)
+
 /-- the container-partner loop as it was BEFORE repo_fixes/C20-container-partners.diff (kept only to
 document finding F21b): the close relative is appended when it is not yet in the output, whether or not
 it was given, and every waiting copy of it that the loop meets is removed -/
